@@ -56,8 +56,10 @@ def make_ops(rng, cfg, profile, tier):
             ops.append({'op': 'SPLIT', 'a': [rng.randrange(2, 5)]})
         elif r < 0.858:
             ops.append({'op': 'MC_THEN_PANEL', 'a': [rng.randrange(5)]})
-        elif r < 0.86:
+        elif r < 0.859:
             ops.append({'op': 'REDECLARE', 'a': []})
+        elif r < 0.86:
+            ops.append({'op': 'SAMPLE_MAP_MANY', 'a': []})
         elif r < 0.9:
             ops.append({'op': 'BOOT_EST', 'a': [rng.choice(list(range(1, ni + 3))), rng.randrange(5)]})
         else:
@@ -422,6 +424,29 @@ class Session:
                              'being declared panel', ids_now, list(vals), self.reference('mc', betas))
                 ctx.probe('Monte-Carlo evaluation before and after panel() on one Database')
                 ctx.log(kind, a[0])
+        elif kind == 'SAMPLE_MAP_MANY':
+            # bootstrap samples of the individuals: every sample has as many entries as there are individuals, each entry is
+            # one individual with its own block of rows, and over 40 samples every individual is drawn at least once (the
+            # probability of missing one is below 1e-15 for a uniform resampling)
+            self.db.build_panel_map()
+            ids_now = sorted({r_['pid'] for r_ in self.rows})
+            full = {float(i_): (int(lo_), int(hi_)) for i_, (lo_, hi_) in zip(self.db.individualMap.index,
+                                                                               self.db.individualMap.to_numpy())}
+            seen = set()
+            for _ in range(40):
+                smp = self.db.sample_individual_map_with_replacement()
+                if len(smp) != len(ids_now):
+                    ctx.fail('I09.boot', f'a bootstrap sample of the individuals has {len(smp)} entries for {len(ids_now)} individuals')
+                for i_, (lo_, hi_) in zip(smp.index, smp.to_numpy()):
+                    if float(i_) not in full or full[float(i_)] != (int(lo_), int(hi_)):
+                        ctx.fail('I09.boot', f'bootstrap entry {i_} -> rows {lo_}..{hi_} is not an individual with its own block')
+                    seen.add(float(i_))
+            if seen != set(ids_now):
+                ctx.fail('I09.boot', f'in 40 bootstrap samples of {len(ids_now)} individuals, {sorted(set(ids_now) - seen)} were never '
+                                     f'drawn')
+            self.stale = False
+            ctx.probe('40 bootstrap samples of the individuals')
+            ctx.log(kind, len(ids_now))
         elif kind == 'REDECLARE':
             # the table is declared panel AGAIN (what a user does after changing it): the map is that of the table as it is
             seq_ = [float(v_) for v_ in self.db.data['pid'].to_list()]
